@@ -4,9 +4,11 @@ From G05 Require Import Routing Spec Check Proofs PacProofs AddrProofs RouteProo
 (* direct-domains > localhost-direct > (external function > static upstream > PAC) > none:
    the proxy function composed by configureProxy computes the short spec, for every configuration,
    every matcher / localhost classifier / PAC / IDNA oracle and every target; a host is a direct-domains host
-   when the list matches its name as written or the (IDNA-mapped) name that is contacted. *)
-Theorem T05_precedence : forall cfg t, proxy_for cfg t = spec_proxy cfg t.
-Proof. exact (proxy_for_is_spec ob_select_order ob_wrappers ob_localhost_const (proj1 ob_direct_rules_judge_contacted_host)). Qed.
+   when the list matches its name as written or the (IDNA-mapped) name that is contacted.  sel_ok: at most one
+   kind of upstream is configured (all the CLI can do), or the arms of the selection switch stand in the order
+   func > upstream > pac. *)
+Theorem T05_precedence : forall cfg t, sel_ok cfg -> proxy_for cfg t = spec_proxy cfg t.
+Proof. exact (proxy_for_is_spec ob_select_arms_present ob_wrappers ob_localhost_const (proj1 ob_direct_rules_judge_contacted_host)). Qed.
 Print Assumptions T05_precedence.
 
 (* The PAC result is translated by the statement's table, for EVERY return string: first entry only; empty /
